@@ -675,6 +675,14 @@ impl OcflStore for FsOcflStore {
         self.closed.store(true, Ordering::Release);
         self.validator.close();
     }
+
+    /// Returns true if the path is inside of the storage root or contains it
+    fn contains_local_path(&self, path: &Path) -> bool {
+        match (fs::canonicalize(path), fs::canonicalize(&self.storage_root)) {
+            (Ok(path), Ok(root)) => path.starts_with(&root) || root.starts_with(&path),
+            _ => false,
+        }
+    }
 }
 
 impl StagingStore for FsOcflStore {
